@@ -11,4 +11,9 @@ impl NameGenerator {
         self.counter += 1;
         TypeVariable::new(name)
     }
+
+    #[cfg(feature = "verif")]
+    pub(crate) fn verif_counter(&self) -> u64 {
+        self.counter
+    }
 }
